@@ -34,8 +34,59 @@ def keepalive_callback_failure(r):
         roots.close()
 
 
+def key_request_failure(r):
+    """A failure inside the encryption layers on the way up: a message arrives from a sender the account has no session with, it is parked
+    and the sender's keys are requested - and that request fails (error reply).  Later messages of that sender are still processed: the next
+    one triggers a new key request, and once keys are available everything parked is worked off (here: retried, re-sent and shown)."""
+    from harness import e2e
+    from yowsup.layers.protocol_messages.protocolentities import TextMessageProtocolEntity
+    from yowsup.layers.protocol_messages.protocolentities.attributes.attributes_message_meta import MessageMetaAttributes
+    roots = e2ekit.Roots()
+    try:
+        for nfail in (1, 2):
+            r.case(("key-request-failure", nfail))
+            r.cov["traces_validated_against_impl"] += 1
+            w = e2e.World(roots, 2, autotrust=[False, True], group=False)
+            n = {"k": 0}
+
+            def send(s, d):
+                n["k"] += 1
+                mid = "k%d" % n["k"]
+                w.do_submit(s, mid, d, TextMessageProtocolEntity("text-" + mid, MessageMetaAttributes(id=mid, recipient=w.acc(d).jid)))
+                w.settle(cap=600)
+                return mid
+            try:
+                send("a", "b")
+                send("b", "a")               # b's session with a is now acknowledged: its next messages are not first messages
+                w.acc("a").reinstall()        # a lost its sessions; what b sends next finds no session at a
+                w.server.fail_key_requests["a"] = nfail
+                parked = [send("b", "a") for _ in range(nfail)]
+                later = send("b", "a")        # the key directory answers again
+                shown = [x[1] for x in w.shown if x[0] == "a"]
+                missing = [m for m in parked + [later] if m not in shown]
+                if missing:
+                    reqs = len([e for e in w.events if e["e"] in ("KeysServed", "KeysRefused") and e.get("who") == "a"])
+                    r.violation("up:parked-forever:key-request-failure", "after %d failed key request(s) of a, messages %s of that sender were never worked off (a asked for keys %d times; shown at a: %s)" % (
+                        nfail, missing, reqs, shown), {"scenario": "key-request-failure", "nfail": nfail})
+            except e2e.Diverged:
+                r.violation("wedged:key-request-failure", "the exchange after a failed key request does not settle", {"nfail": nfail})
+            except core.MachineryError:
+                raise
+            except Exception as ex:
+                r.violation("exception:key-request-failure:%s" % type(ex).__name__, "raised %r" % (ex,), {"nfail": nfail})
+            finally:
+                w.close()
+    finally:
+        roots.close()
+
+
+def extras(r):
+    keepalive_callback_failure(r)
+    key_request_failure(r)
+
+
 def run():
-    return sendpath.run("C12", extra=keepalive_callback_failure)
+    return sendpath.run("C12", extra=extras)
 
 
 def replay(path):
